@@ -41,6 +41,7 @@ def main():
         rc, o = sh("git -C /repo worktree add -q --detach %s HEAD" % wt)
         try:
             demo_cmd = meta.get("demo_cmd", "cargo test --offline")
+            demo_cmd = re.split(r"\s+\(|;", demo_cmd)[0].strip()      # some agents appended remarks to the command
             rc, o = sh("git apply %s" % demo, cwd=wt)
             report["steps"].append({"apply demo on clean tree": rc})
             rc1, o1 = sh(demo_cmd, cwd=wt)
